@@ -2,6 +2,7 @@ package rules
 
 import (
 	"fmt"
+	"go/ast"
 	"go/token"
 	"go/types"
 	"strings"
@@ -1978,12 +1979,12 @@ func init() {
 	register(&Rule{ID: "R-MATCHGROW", Min: 2, Run: ruleMatchGrow,
 		Doc: "an optimizer gives a selector a new matcher list only by growing the list it has (append onto the selector's own LabelMatchers) or by taking over, whole, a list collected from another selector: it never assigns a list rebuilt from scratch out of a map or a filtered loop, which is how the metric-name matcher and matchers with a repeated label name get lost"})
 	register(&Rule{ID: "R-DROPEXACT", Min: 1, Run: ruleDropExact,
-		Doc: "a helper that deletes matchers from a list by label name alone is only ever asked to delete the metric name: deleting by name a matcher that was found equal to another one (name, type and value) also deletes every other matcher with that label name (foo{a=~\"x|z\", a!=\"z\"})"})
+		Doc: "a matcher is deleted from a matcher list only when it has been identified by name, type and value: a deletion decided on the label name alone also removes every other matcher with that name (foo{a=~\"x|z\", a!=\"z\"}; a second metric-name matcher)"})
 
 	mutant(Mutant{Rule: "R-MATCHGROW", Name: "selector-gets-rebuilt-union", File: "logicalplan/propagate_selectors.go",
 		Old: "\tlhSelector.LabelMatchers = withMatchers(lhSelector.LabelMatchers, rhMatchers)\n", New: "\tlhSelector.LabelMatchers = append([]*labels.Matcher{}, rhMatchers...)\n", Expect: "propagateMatchers"})
-	mutant(Mutant{Rule: "R-DROPEXACT", Name: "equal-matcher-dropped-by-name", File: "logicalplan/merge_selects.go",
-		Old: "\t\t\t\tfilters = dropEqualMatcher(s, filters)\n", New: "\t\t\t\tfilters = dropMatcher(s.Name, filters)\n", Expect: "replaceMatchers"})
+	mutant(Mutant{Rule: "R-DROPEXACT", Name: "matcher-dropped-by-name", File: "logicalplan/merge_selects.go",
+		Old: "\t\tif l.Name == m.Name && l.Type == m.Type && l.Value == m.Value {\n\t\t\toriginalMatchers = append(", New: "\t\tif l.Name == m.Name {\n\t\t\toriginalMatchers = append(", Expect: "dropEqualMatcher"})
 }
 
 func isSelectorMatchersField(v ssa.Value) bool {
@@ -2172,54 +2173,1119 @@ func originOfCall(p *core.Program, c *ssa.Call, idx int, env map[*ssa.Parameter]
 func ruleDropExact(p *core.Program) []core.Obligation {
 	const rule = "R-DROPEXACT"
 	var obs []core.Obligation
-	// helpers that delete from a matcher list under a condition on Name only, keyed by a string parameter
 	for _, fn := range p.Funcs {
-		if core.Rel(fn.Pkg.Pkg.Path()) != "logicalplan" || fn.Parent() != nil {
+		if core.Rel(fn.Pkg.Pkg.Path()) != "logicalplan" {
 			continue
 		}
-		var nameParam *ssa.Parameter
-		deletes := false
+		k := 0
 		core.EachInstr(fn, func(b *ssa.BasicBlock, i int, ins ssa.Instruction) {
-			if call, ok := ins.(*ssa.Call); ok {
-				if x, ok := shiftDelete(call); ok && isMatcherSlice(x.Type()) {
-					deletes = true
+			call, ok := ins.(*ssa.Call)
+			if !ok {
+				return
+			}
+			x, ok := shiftDelete(call)
+			if !ok || !isMatcherSlice(x.Type()) {
+				return
+			}
+			k++
+			key := fmt.Sprintf("%s deletes from a matcher list #%d", core.FuncName(fn), k)
+			// the comparisons on matcher fields that decide about the deletion (all comparisons of the function
+			// whose taken branch dominates the deletion)
+			cmp := map[string]bool{}
+			for _, bb := range fn.Blocks {
+				iff := core.IfOf(bb)
+				if iff == nil || !(core.BranchDominates(bb, 0, b) || core.BranchDominates(bb, 1, b)) {
+					continue
+				}
+				core.BackSlice(iff.Cond, func(v ssa.Value) bool {
+					if bo, ok := v.(*ssa.BinOp); ok && (bo.Op == token.EQL || bo.Op == token.NEQ) {
+						if f := matcherFieldLoad(bo.X); f != "" {
+							cmp[f] = true
+						}
+						if f := matcherFieldLoad(bo.Y); f != "" {
+							cmp[f] = true
+						}
+					}
+					return true
+				})
+			}
+			if cmp["Name"] && cmp["Type"] && cmp["Value"] {
+				obs = append(obs, core.Ob(rule, key, p.Pos(call.Pos()), core.FuncName(fn), core.Held, "the deleted matcher is identified by name, type and value"))
+			} else {
+				obs = append(obs, core.Ob(rule, key, p.Pos(call.Pos()), core.FuncName(fn), core.Violated, fmt.Sprintf("the deletion is decided on %v only: every matcher with that label name goes, including a second matcher on the same label (foo{a=~\"x|z\", a!=\"z\"}, {__name__=~\"foo|bar\", __name__!=\"bar\"})", sortedKeys(cmp))))
+			}
+		})
+	}
+	return obs
+}
+
+// ---------------------------------------------------------------------------------------------
+
+func init() {
+	register(&Rule{ID: "R-RELEASEFN", Min: 1, Run: ruleReleaseFn,
+		Doc: "a release function handed out by a call (a result of type func(): a context's cancel function, a tracker's finish callback, an unlock closure) is called, deferred or handed on (returned, stored, passed) on every path from that call to a return of the function; the only exempt path is the error return of the very call that produced it. Otherwise some early return keeps the resource (a context with its goroutines, a query slot) until the process ends"})
+
+	mutant(Mutant{Rule: "R-RELEASEFN", Name: "cancel-deferred-after-an-early-return", File: "engine/engine.go",
+		Old: "\tctx, cancel := context.WithCancel(ctx)\n\tdefer cancel()\n", New: "\tctx, cancel := context.WithCancel(ctx)\n\tif ctx.Err() != nil {\n\t\treturn newErrResult(ret, ctx.Err())\n\t}\n\tdefer cancel()\n", Expect: "Exec"})
+}
+
+func ruleReleaseFn(p *core.Program) []core.Obligation {
+	const rule = "R-RELEASEFN"
+	var obs []core.Obligation
+	isReleaseType := func(t types.Type) bool {
+		sg, ok := t.Underlying().(*types.Signature)
+		return ok && sg.Params().Len() == 0 && sg.Results().Len() == 0 && sg.Recv() == nil
+	}
+	for _, fn := range p.Funcs {
+		k := 0
+		core.EachInstr(fn, func(b *ssa.BasicBlock, i int, ins ssa.Instruction) {
+			call, ok := ins.(*ssa.Call)
+			if !ok {
+				return
+			}
+			if _, isBuiltin := call.Call.Value.(*ssa.Builtin); isBuiltin {
+				return
+			}
+			var rel, errv ssa.Value
+			switch t := call.Type().(type) {
+			case *types.Tuple:
+				for j := 0; j < t.Len(); j++ {
+					for _, r := range core.Referrers(call) {
+						ex, ok := r.(*ssa.Extract)
+						if !ok || ex.Index != j {
+							continue
+						}
+						if isReleaseType(t.At(j).Type()) {
+							rel = ex
+						}
+						if types.Identical(t.At(j).Type(), types.Universe.Lookup("error").Type()) {
+							errv = ex
+						}
+					}
+				}
+			default:
+				// a single func() result: only named types such as context.CancelFunc (plain func() values are
+				// callbacks as often as release functions)
+				if n, ok := call.Type().(*types.Named); ok && isReleaseType(n) {
+					rel = call
 				}
 			}
-			if bo, ok := ins.(*ssa.BinOp); ok && (bo.Op == token.EQL || bo.Op == token.NEQ) {
-				for _, side := range [][2]ssa.Value{{bo.X, bo.Y}, {bo.Y, bo.X}} {
-					if pr, ok := side[1].(*ssa.Parameter); ok {
-						if _, f, _, ok := core.FieldRef(core.Deref(side[0])); ok && f == "Name" {
-							nameParam = pr
+			if rel == nil {
+				return
+			}
+			k++
+			key := fmt.Sprintf("%s releases what %s handed out #%d", core.FuncName(fn), core.CalleeName(&call.Call), k)
+			uses := func(x ssa.Instruction) bool {
+				switch y := x.(type) {
+				case *ssa.Defer:
+					if y.Call.Value == rel {
+						return true
+					}
+					for _, a := range y.Call.Args {
+						if a == rel {
+							return true
+						}
+					}
+				case *ssa.Call:
+					if y.Call.Value == rel {
+						return true
+					}
+					for _, a := range y.Call.Args {
+						if a == rel {
+							return true
+						}
+					}
+				case *ssa.Go:
+					for _, a := range y.Call.Args {
+						if a == rel {
+							return true
+						}
+					}
+				case *ssa.Store:
+					return y.Val == rel
+				case *ssa.MakeClosure:
+					for _, bnd := range y.Bindings {
+						if bnd == rel {
+							return true
+						}
+					}
+				case *ssa.Return:
+					for _, r := range core.RetResults(y) {
+						if r == rel {
+							return true
+						}
+					}
+				case *ssa.MakeInterface:
+					return y.X == rel
+				}
+				return false
+			}
+			errEdge := func(from *ssa.BasicBlock, succ int) bool {
+				if errv == nil {
+					return false
+				}
+				iff := core.IfOf(from)
+				if iff == nil {
+					return false
+				}
+				bo, ok := iff.Cond.(*ssa.BinOp)
+				if !ok {
+					return false
+				}
+				if (bo.X == errv && core.IsNilConst(bo.Y)) || (bo.Y == errv && core.IsNilConst(bo.X)) {
+					return (bo.Op == token.NEQ && succ == 0) || (bo.Op == token.EQL && succ == 1)
+				}
+				return false
+			}
+			var bad *ssa.Return
+			seen := map[*ssa.BasicBlock]bool{}
+			var scan func(bb *ssa.BasicBlock, from int)
+			scan = func(bb *ssa.BasicBlock, from int) {
+				for _, x := range bb.Instrs[from:] {
+					if bad != nil {
+						return
+					}
+					if r, isRet := x.(*ssa.Return); isRet {
+						if !uses(x) {
+							bad = r
+						}
+						return
+					}
+					if uses(x) {
+						return
+					}
+				}
+				for si, s := range bb.Succs {
+					if seen[s] || errEdge(bb, si) || s == fn.Recover {
+						continue
+					}
+					seen[s] = true
+					scan(s, 0)
+				}
+			}
+			scan(b, i+1)
+			if bad != nil {
+				obs = append(obs, core.Ob(rule, key, p.Pos(call.Pos()), core.FuncName(fn), core.Violated, "the return at "+p.Pos(bad.Pos())+" is reachable without the release function having been called, deferred or handed on: what it releases stays held"))
+			} else {
+				obs = append(obs, core.Ob(rule, key, p.Pos(call.Pos()), core.FuncName(fn), core.Held, "released (or handed on) on every path"))
+			}
+		})
+	}
+	return obs
+}
+
+// ---------------------------------------------------------------------------------------------
+
+func init() {
+	register(&Rule{ID: "R-ONFLAG", Min: 1, Run: ruleOnFlag,
+		Doc: "a decision taken on the length of VectorMatching.MatchingLabels also consults VectorMatching.On: on() and ignoring() with an empty list mean opposite things (match on no label at all / match on all labels), so a function that tests the one without reading the other treats `a + on () b` like `a + b`"})
+}
+
+func init() {
+	mutant(Mutant{Rule: "R-ONFLAG", Name: "empty-on-treated-like-no-modifier", File: "logicalplan/propagate_selectors.go",
+		Old: "(binOp.VectorMatching.On || len(binOp.VectorMatching.MatchingLabels) > 0)", New: "len(binOp.VectorMatching.MatchingLabels) > 0", Expect: "Optimize"})
+}
+
+func ruleOnFlag(p *core.Program) []core.Obligation {
+	const rule = "R-ONFLAG"
+	var obs []core.Obligation
+	isVMField := func(v ssa.Value, field string) bool {
+		n, f, _, ok := core.FieldRef(v)
+		return ok && n != nil && f == field && n.Obj().Name() == "VectorMatching" && n.Obj().Pkg().Path() == pkgParser
+	}
+	for _, fn := range p.Funcs {
+		testsLen, readsOn := false, false
+		var at token.Pos
+		core.EachInstr(fn, func(b *ssa.BasicBlock, i int, ins ssa.Instruction) {
+			if u, ok := ins.(*ssa.UnOp); ok && u.Op == token.MUL && isVMField(u.X, "On") {
+				readsOn = true
+			}
+			iff, ok := ins.(*ssa.If)
+			if !ok {
+				return
+			}
+			core.BackSlice(iff.Cond, func(x ssa.Value) bool {
+				if c, ok := x.(*ssa.Call); ok {
+					if bi, ok := c.Call.Value.(*ssa.Builtin); ok && bi.Name() == "len" {
+						if a := core.Deref(c.Call.Args[0]); a != nil && isVMField(a, "MatchingLabels") {
+							testsLen = true
+							if !at.IsValid() {
+								at = c.Pos()
+							}
+						}
+					}
+				}
+				return true
+			})
+		})
+		if !testsLen {
+			continue
+		}
+		// closures of the same function count as one decision context
+		if !readsOn {
+			for _, cl := range core.Closures(fn) {
+				core.EachInstr(cl, func(_ *ssa.BasicBlock, _ int, ins ssa.Instruction) {
+					if u, ok := ins.(*ssa.UnOp); ok && u.Op == token.MUL && isVMField(u.X, "On") {
+						readsOn = true
+					}
+				})
+			}
+		}
+		key := core.FuncName(fn) + " decides on the length of MatchingLabels"
+		if readsOn {
+			obs = append(obs, core.Ob(rule, key, p.Pos(at), core.FuncName(fn), core.Held, "the On flag is consulted as well"))
+		} else {
+			obs = append(obs, core.Ob(rule, key, p.Pos(at), core.FuncName(fn), core.Violated, "the function tests len(MatchingLabels) but never reads On: `on ()` (match on no label) is treated like plain matching on all labels"))
+		}
+	}
+	return obs
+}
+
+// ---------------------------------------------------------------------------------------------
+
+func init() {
+	register(&Rule{ID: "R-DONEPARAM", Min: 1, Run: ruleDoneParam,
+		Doc: "a goroutine that is handed the Done method of a WaitGroup its spawner waits on (go w.start(wg.Done, ctx)) calls it on every path: each return of the goroutine's function is dominated by a call (or a defer) of that parameter. A fast path that returns first leaves the spawner in Wait() for ever, and with it Exec"})
+	register(&Rule{ID: "R-NANSORT", Min: 1, Run: ruleNaNSort,
+		Doc: "a slice of floats is sorted with a NaN-aware order only (sort.Float64s, or sort.Sort with a Less that tests math.IsNaN): the generic slices.Sort of the pinned golang.org/x/exp compares with < alone, which leaves a slice containing NaN partly unsorted in a way that depends on where the NaN arrived"})
+
+	mutant(Mutant{Rule: "R-DONEPARAM", Name: "cancelled-context-fast-path-before-done", File: "worker/worker.go",
+		Old: "\tw.ctx = ctx\n\tdone()\n", New: "\tw.ctx = ctx\n\tif ctx.Err() != nil {\n\t\tclose(w.output)\n\t\treturn\n\t}\n\tdone()\n", Expect: "start"})
+	mutant(Mutant{Rule: "R-NANSORT", Name: "quantile-sorted-with-generic-sort", File: "execution/aggregate/scalar_table.go",
+		Old: "\tsort.Float64s(points)\n", New: "\tslices.Sort(points)\n\t_ = sort.Float64s\n", Old2: "import (\n", New2: "import (\n\t\"golang.org/x/exp/slices\"\n", Expect: "quantile"})
+}
+
+func ruleDoneParam(p *core.Program) []core.Obligation {
+	const rule = "R-DONEPARAM"
+	var obs []core.Obligation
+	for _, fn := range p.Funcs {
+		core.EachInstr(fn, func(b *ssa.BasicBlock, i int, ins ssa.Instruction) {
+			g, ok := ins.(*ssa.Go)
+			if !ok {
+				return
+			}
+			callee := g.Call.StaticCallee()
+			if callee == nil || !p.InRepo(callee) || callee.Blocks == nil {
+				return
+			}
+			args := g.Call.Args
+			for ai, a := range args {
+				if ct, ok := a.(*ssa.ChangeType); ok {
+					a = ct.X
+				}
+				mc, ok := a.(*ssa.MakeClosure)
+				if !ok {
+					continue
+				}
+				bf, ok := mc.Fn.(*ssa.Function)
+				if !ok || !strings.HasPrefix(bf.Name(), "Done$bound") && bf.String() != "(*sync.WaitGroup).Done$bound" {
+					continue
+				}
+				if ai >= len(callee.Params) {
+					continue
+				}
+				prm := callee.Params[ai]
+				key := fmt.Sprintf("%s calls the WaitGroup.Done it is handed by %s on every path", core.FuncName(callee), core.FuncName(fn))
+				var calls []ssa.Instruction
+				core.EachInstr(callee, func(_ *ssa.BasicBlock, _ int, x ssa.Instruction) {
+					if cc := core.CallCommon(x); cc != nil && cc.Value == prm {
+						calls = append(calls, x)
+					}
+				})
+				bad := ""
+				core.EachInstr(callee, func(rb *ssa.BasicBlock, _ int, x ssa.Instruction) {
+					ret, ok := x.(*ssa.Return)
+					if !ok || rb == callee.Recover {
+						return
+					}
+					dom := false
+					for _, c := range calls {
+						if core.InstrDominates(c, ret) {
+							dom = true
+						}
+					}
+					if !dom {
+						bad = p.Pos(ret.Pos())
+					}
+				})
+				if len(calls) == 0 || bad != "" {
+					obs = append(obs, core.Ob(rule, key, p.Pos(g.Pos()), core.FuncName(callee), core.Violated, "a return ("+bad+") is reachable without the Done parameter having been called: the spawner's Wait() never returns"))
+				} else {
+					obs = append(obs, core.Ob(rule, key, p.Pos(g.Pos()), core.FuncName(callee), core.Held, "every return is dominated by the call"))
+				}
+			}
+		})
+	}
+	return obs
+}
+
+func ruleNaNSort(p *core.Program) []core.Obligation {
+	const rule = "R-NANSORT"
+	var obs []core.Obligation
+	isFloatSlice := func(t types.Type) bool {
+		s, ok := t.Underlying().(*types.Slice)
+		return ok && isFloatType(s.Elem())
+	}
+	for _, fn := range p.Funcs {
+		k := 0
+		core.EachInstr(fn, func(b *ssa.BasicBlock, i int, ins ssa.Instruction) {
+			call, ok := ins.(*ssa.Call)
+			if !ok || len(call.Call.Args) == 0 {
+				return
+			}
+			name := core.CalleeName(&call.Call)
+			if !(strings.HasPrefix(name, "sort.") || strings.Contains(name, "slices.Sort")) {
+				return
+			}
+			arg := call.Call.Args[0]
+			if mi, ok := arg.(*ssa.MakeInterface); ok {
+				arg = mi.X
+			}
+			if ct, ok := arg.(*ssa.ChangeType); ok {
+				arg = ct.X
+			}
+			if !isFloatSlice(arg.Type()) {
+				return
+			}
+			k++
+			key := fmt.Sprintf("%s sorts floats #%d", core.FuncName(fn), k)
+			if strings.Contains(name, "slices.Sort") {
+				obs = append(obs, core.Ob(rule, key, p.Pos(call.Pos()), core.FuncName(fn), core.Violated, name+" orders with < alone: a NaN in the slice leaves it partly unsorted, depending on where the NaN arrived (series order, shard arrival order)"))
+			} else {
+				obs = append(obs, core.Ob(rule, key, p.Pos(call.Pos()), core.FuncName(fn), core.Held, name+" orders NaN before all other values"))
+			}
+		})
+	}
+	// the rule's expected number of generic float sorts is zero: report the NaN-aware ones as instances
+	return obs
+}
+
+// ---------------------------------------------------------------------------------------------
+
+func init() {
+	register(&Rule{ID: "R-ERRKEPT", Min: 20, Run: ruleErrKept,
+		Doc: "once an error of an operator, of the storage or of one of the repository's own functions has been found to be non-nil, it is not lost again: from the non-nil branch of the test every path to a return of the function uses that error (returns it, sends it, stores it, passes it on) - it is never merely tested and then replaced by the outcome of a later call (break out of an inner loop, a shared err variable assigned again)"})
+
+	mutant(Mutant{Rule: "R-ERRKEPT", Name: "iterator-error-breaks-inner-loop-only", File: "execution/scan/vector_selector.go",
+		Old:  "\t\t\t_, v, ok, err := selectPoint(series.samples, seriesTs, o.lookbackDelta, o.offset)\n\t\t\tif err != nil {\n\t\t\t\treturn nil, err\n\t\t\t}\n",
+		New:  "\t\t\t_, v, ok, err = selectPoint(series.samples, seriesTs, o.lookbackDelta, o.offset)\n\t\t\tif err != nil {\n\t\t\t\tbreak\n\t\t\t}\n",
+		Old2: "\tvectors := o.vectorPool.GetVectorBatch()\n\tts := o.currentStep\n", New2: "\tvar (\n\t\tv   float64\n\t\tok  bool\n\t\terr error\n\t)\n\tvectors := o.vectorPool.GetVectorBatch()\n\tts := o.currentStep\n",
+		Expect: "vectorSelector"})
+	mutant(Mutant{Rule: "R-ERRKEPT", Name: "scalar-error-overwritten-by-once-closure", File: "execution/binary/scalar.go",
+		Old: "\to.seriesOnce.Do(func() { err = o.loadSeries(ctx) })\n\tif err != nil {\n\t\treturn nil, err\n\t}\n\n\tscalarIn, err := o.scalar.Next(ctx)\n", New: "\tscalarIn, err := o.scalar.Next(ctx)\n\to.seriesOnce.Do(func() { err = o.loadSeries(ctx) })\n", Expect: "scalarOperator"})
+}
+
+func ruleErrKept(p *core.Program) []core.Obligation {
+	const rule = "R-ERRKEPT"
+	var obs []core.Obligation
+	errT := types.Universe.Lookup("error").Type()
+	for _, fn := range p.Funcs {
+		rel := core.Rel(fn.Pkg.Pkg.Path())
+		if !(rel == "engine" || rel == "logicalplan" || strings.HasPrefix(rel, "execution") || rel == "worker") {
+			continue
+		}
+		counts := map[string]int{}
+		core.EachInstr(fn, func(b *ssa.BasicBlock, i int, ins ssa.Instruction) {
+			call, ok := ins.(*ssa.Call)
+			if !ok {
+				return
+			}
+			cc := &call.Call
+			sig := cc.Signature()
+			if sig == nil || sig.Results().Len() == 0 {
+				return
+			}
+			errIdx := -1
+			for r := 0; r < sig.Results().Len(); r++ {
+				if types.Identical(sig.Results().At(r).Type(), errT) {
+					errIdx = r
+				}
+			}
+			if errIdx < 0 {
+				return
+			}
+			inScope := false
+			name := core.CalleeName(cc)
+			if cc.IsInvoke() {
+				name = types.TypeString(cc.Value.Type(), nil) + "." + cc.Method.Name()
+				if n := core.NamedOf(cc.Value.Type()); n != nil && n.Obj().Pkg() != nil {
+					pp := n.Obj().Pkg().Path()
+					inScope = strings.HasPrefix(pp, core.Module) || pp == pkgStorage || pp == pkgChunkenc || (pp == pkgPromql && n.Obj().Name() == "Query")
+				}
+			} else if f := cc.StaticCallee(); f != nil {
+				inScope = p.InRepo(f)
+			}
+			if !inScope {
+				return
+			}
+			var e ssa.Value
+			if sig.Results().Len() == 1 {
+				e = call
+			} else {
+				for _, r := range core.Referrers(call) {
+					if ex, ok := r.(*ssa.Extract); ok && ex.Index == errIdx {
+						e = ex
+					}
+				}
+			}
+			if e == nil {
+				return
+			}
+			// the error is kept in a variable that a closure captures: no call of that closure (directly or through
+			// once.Do) may come between the assignment and the first look at the variable
+			for _, r := range core.Referrers(e) {
+				st, ok := r.(*ssa.Store)
+				if !ok || st.Val != e {
+					continue
+				}
+				a, ok := st.Addr.(*ssa.Alloc)
+				if !ok {
+					continue
+				}
+				blk := st.Block()
+				idx := core.InstrIndex(st)
+				for _, x := range blk.Instrs[idx+1:] {
+					if u, ok := x.(*ssa.UnOp); ok && u.Op == token.MUL && u.X == a {
+						break // looked at
+					}
+					cc := core.CallCommon(x)
+					if cc == nil {
+						continue
+					}
+					for _, arg := range append([]ssa.Value{cc.Value}, cc.Args...) {
+						mc, ok := arg.(*ssa.MakeClosure)
+						if !ok {
+							continue
+						}
+						cf, _ := mc.Fn.(*ssa.Function)
+						if cf == nil {
+							continue
+						}
+						for bi, bnd := range mc.Bindings {
+							if bnd != a || bi >= len(cf.FreeVars) {
+								continue
+							}
+							writes := false
+							for _, fr := range core.Referrers(cf.FreeVars[bi]) {
+								if s2, ok := fr.(*ssa.Store); ok && s2.Addr == cf.FreeVars[bi] {
+									writes = true
+								}
+							}
+							if writes {
+								short := strings.ReplaceAll(name, core.Module+"/", "")
+								counts[short+" slot"]++
+								key := fmt.Sprintf("%s keeps the error of %s in a captured variable #%d", core.FuncName(fn), short, counts[short+" slot"])
+								obs = append(obs, core.Ob(rule, key, p.Pos(call.Pos()), core.FuncName(fn), core.Violated, "the error is stored in a variable that the closure called at "+p.Pos(x.Pos())+" assigns as well, before anything has looked at it: the closure's result (nil when it succeeds, or when its sync.Once has already run) replaces the failure"))
+							}
 						}
 					}
 				}
 			}
+			// the test of e itself
+			for _, r := range core.Referrers(e) {
+				bo, ok := r.(*ssa.BinOp)
+				if !ok || (bo.Op != token.NEQ && bo.Op != token.EQL) || !(core.IsNilConst(bo.X) || core.IsNilConst(bo.Y)) {
+					continue
+				}
+				for _, rr := range core.Referrers(bo) {
+					iff, ok := rr.(*ssa.If)
+					if !ok {
+						continue
+					}
+					succ := 0
+					if bo.Op == token.EQL {
+						succ = 1
+					}
+					short := strings.ReplaceAll(name, core.Module+"/", "")
+					if j := strings.LastIndex(short, "/"); j >= 0 {
+						short = short[j+1:]
+					}
+					counts[short]++
+					key := fmt.Sprintf("%s keeps a non-nil error of %s #%d", core.FuncName(fn), short, counts[short])
+					if lost := errorLostOnPath(fn, iff.Block(), succ, e); lost != nil {
+						obs = append(obs, core.Ob(rule, key, p.Pos(call.Pos()), core.FuncName(fn), core.Violated, "from the branch on which the error is non-nil the return at "+p.Pos(lost.Pos())+" can be reached without the error having been returned, sent, stored or passed on: the failure is replaced by whatever a later call reports"))
+					} else {
+						obs = append(obs, core.Ob(rule, key, p.Pos(call.Pos()), core.FuncName(fn), core.Held, "every path from the non-nil branch uses the error"))
+					}
+				}
+			}
 		})
-		if !deletes || nameParam == nil {
-			continue
+	}
+	return obs
+}
+
+// errorLostOnPath searches, from successor succ of block from, a path to a return on which no instruction
+// uses the error value e (or a phi that carries it along that path).
+func errorLostOnPath(fn *ssa.Function, from *ssa.BasicBlock, succ int, e ssa.Value) *ssa.Return {
+	type state struct {
+		b   *ssa.BasicBlock
+		key string
+	}
+	seen := map[state]bool{}
+	var lost *ssa.Return
+	var walk func(prev, b *ssa.BasicBlock, tracked map[ssa.Value]bool, depth int)
+	keyOf := func(t map[ssa.Value]bool) string {
+		var ks []string
+		for v := range t {
+			ks = append(ks, v.Name())
+		}
+		sortStrings(ks)
+		return strings.Join(ks, ",")
+	}
+	uses := func(x ssa.Instruction, t map[ssa.Value]bool) bool {
+		switch y := x.(type) {
+		case *ssa.If, *ssa.Phi, *ssa.DebugRef:
+			return false
+		case *ssa.BinOp:
+			return false // comparisons with nil
+		case *ssa.Store:
+			return t[y.Val]
+		}
+		for _, op := range x.Operands(nil) {
+			if op != nil && *op != nil && t[*op] {
+				return true
+			}
+		}
+		return false
+	}
+	walk = func(prev, b *ssa.BasicBlock, tracked map[ssa.Value]bool, depth int) {
+		if lost != nil || depth > 200 || b == fn.Recover {
+			return
+		}
+		// phis of b: the tracked set follows the edge prev -> b
+		t := map[ssa.Value]bool{}
+		for v := range tracked {
+			t[v] = true
 		}
 		idx := -1
-		for i, q := range fn.Params {
-			if q == nameParam {
+		for i, pr := range b.Preds {
+			if pr == prev {
 				idx = i
 			}
 		}
+		for _, ins := range b.Instrs {
+			ph, ok := ins.(*ssa.Phi)
+			if !ok {
+				break
+			}
+			if idx >= 0 && idx < len(ph.Edges) && tracked[ph.Edges[idx]] {
+				t[ph] = true
+			} else {
+				delete(t, ph)
+			}
+		}
+		st := state{b, keyOf(t)}
+		if seen[st] {
+			return
+		}
+		seen[st] = true
+		for _, ins := range b.Instrs {
+			if v, ok := ins.(ssa.Value); ok {
+				// aliases of the error: interface conversions keep tracking it
+				switch y := ins.(type) {
+				case *ssa.MakeInterface:
+					if t[y.X] {
+						t[v] = true
+						continue
+					}
+				case *ssa.ChangeInterface:
+					if t[y.X] {
+						t[v] = true
+						continue
+					}
+				}
+			}
+			if uses(ins, t) {
+				return
+			}
+			if r, ok := ins.(*ssa.Return); ok {
+				lost = r
+				return
+			}
+		}
+		for _, s := range b.Succs {
+			walk(b, s, t, depth+1)
+		}
+	}
+	start := from.Succs[succ]
+	walk(from, start, map[ssa.Value]bool{e: true}, 0)
+	return lost
+}
+
+// ---------------------------------------------------------------------------------------------
+
+func init() {
+	register(&Rule{ID: "R-SENDEVERY", Min: 2, Run: ruleSendEvery,
+		Doc: "an operator that hands the steps of a batch to its workers and then collects one output per step dispatches on every path of every iteration: the loop that calls Worker.Send has no path round an iteration that skips the Send (the collecting loop waits on the output of every worker of the batch, and a worker that was given nothing never answers)"})
+	register(&Rule{ID: "R-PUTONCE", Min: 3, Run: rulePutOnce,
+		Doc: "the step vectors of a batch obtained from an operator's Next are handed back to that operator's pool at one place only: two PutStepVector sites for elements of the same batch, one of which can run after the other, put a vector into the pool twice, and the pool then hands the same backing arrays to two steps of a later batch"})
+
+	mutant(Mutant{Rule: "R-SENDEVERY", Name: "empty-steps-not-dispatched", File: "execution/unary/unary.go",
+		Old: "\tfor i, vector := range in {\n\t\tif err := u.workers[i].Send(0, vector); err != nil {", New: "\tfor i, vector := range in {\n\t\tif len(vector.Samples) == 0 {\n\t\t\tcontinue\n\t\t}\n\t\tif err := u.workers[i].Send(0, vector); err != nil {", Expect: "unaryNegation"})
+	mutant(Mutant{Rule: "R-PUTONCE", Name: "scalar-argument-vectors-returned-twice", File: "execution/function/operator.go",
+		Old: "\t\to.nextOps[i].GetPool().PutVectors(scalarVectors)\n", New: "\t\tfor _, sv := range scalarVectors {\n\t\t\to.nextOps[i].GetPool().PutStepVector(sv)\n\t\t}\n\t\to.nextOps[i].GetPool().PutVectors(scalarVectors)\n", Expect: "functionOperator"})
+}
+
+func ruleSendEvery(p *core.Program) []core.Obligation {
+	const rule = "R-SENDEVERY"
+	var obs []core.Obligation
+	send := "(*" + core.Module + "/worker.Worker).Send"
+	for _, fn := range p.Funcs {
+		if !hasPrefixRel(fn, "execution") {
+			continue
+		}
+		loops := core.LoopBodies(fn)
+		var headers []*ssa.BasicBlock
+		for h := range loops {
+			headers = append(headers, h)
+		}
+		sortBlocks(headers)
 		k := 0
-		for _, caller := range p.Funcs {
-			core.EachInstr(caller, func(b *ssa.BasicBlock, i int, ins ssa.Instruction) {
-				call, ok := ins.(*ssa.Call)
-				if !ok || call.Call.StaticCallee() != fn || idx >= len(call.Call.Args) {
-					return
+		for _, h := range headers {
+			body := loops[h]
+			sendBlocks := map[*ssa.BasicBlock]bool{}
+			for b := range body {
+				for _, ins := range b.Instrs {
+					if cc := core.CallCommon(ins); cc != nil && core.CalleeName(cc) == send {
+						sendBlocks[b] = true
+					}
 				}
-				k++
-				key := fmt.Sprintf("%s deletes matchers by name through %s #%d", core.FuncName(caller), fn.Name(), k)
-				if c, ok := call.Call.Args[idx].(*ssa.Const); ok && c.Value != nil && strings.Trim(c.Value.ExactString(), "\"") == "__name__" {
-					obs = append(obs, core.Ob(rule, key, p.Pos(call.Pos()), core.FuncName(caller), core.Held, "only the metric name is deleted by name"))
+			}
+			if len(sendBlocks) == 0 {
+				continue
+			}
+			k++
+			key := fmt.Sprintf("%s dispatches every step of the batch to a worker #%d", core.FuncName(fn), k)
+			seen := map[*ssa.BasicBlock]bool{h: true}
+			work := []*ssa.BasicBlock{h}
+			skipped := false
+			for len(work) > 0 && !skipped {
+				x := work[len(work)-1]
+				work = work[:len(work)-1]
+				if sendBlocks[x] {
+					continue
+				}
+				for _, s := range x.Succs {
+					if !body[s] {
+						continue
+					}
+					if s == h {
+						skipped = true
+						break
+					}
+					if !seen[s] {
+						seen[s] = true
+						work = append(work, s)
+					}
+				}
+			}
+			if skipped {
+				obs = append(obs, core.Ob(rule, key, firstPos(p, h), core.FuncName(fn), core.Violated, "an iteration of the dispatch loop can complete without calling Send: the collecting loop then waits for ever on a worker that was given nothing"))
+			} else {
+				obs = append(obs, core.Ob(rule, key, firstPos(p, h), core.FuncName(fn), core.Held, "every path through an iteration calls Send or leaves the function"))
+			}
+		}
+	}
+	return obs
+}
+
+func rulePutOnce(p *core.Program) []core.Obligation {
+	const rule = "R-PUTONCE"
+	var obs []core.Obligation
+	put := "(*" + modModel + ".VectorPool).PutStepVector"
+	for _, fn := range p.Funcs {
+		if fn.Name() != "Next" && fn.Parent() == nil {
+			continue
+		}
+		if !hasPrefixRel(fn, "execution") {
+			continue
+		}
+		// batch value -> put sites whose argument is an element of it
+		type site struct {
+			call *ssa.Call
+		}
+		byBatch := map[ssa.Value][]site{}
+		var order []ssa.Value
+		core.EachInstr(fn, func(b *ssa.BasicBlock, i int, ins ssa.Instruction) {
+			call, ok := ins.(*ssa.Call)
+			if !ok || core.CalleeName(&call.Call) != put || len(call.Call.Args) != 2 {
+				return
+			}
+			// the element's batch: load of IndexAddr(batch, _) or a range element of batch
+			var batch ssa.Value
+			core.BackSlice(call.Call.Args[1], func(x ssa.Value) bool {
+				if batch != nil {
+					return false
+				}
+				switch y := x.(type) {
+				case *ssa.IndexAddr:
+					if isStepVectorSlice(y.X.Type()) && fromNext(y.X) {
+						batch = y.X
+					}
+					return false
+				case *ssa.Index:
+					if isStepVectorSlice(y.X.Type()) && fromNext(y.X) {
+						batch = y.X
+					}
+					return false
+				case *ssa.Call:
+					return false
+				}
+				return true
+			})
+			if batch == nil {
+				return
+			}
+			// canonical batch: the Extract it comes from
+			for v := range core.PhiClosure(batch) {
+				if _, ok := v.(*ssa.Extract); ok {
+					batch = v
+				}
+			}
+			if _, ok := byBatch[batch]; !ok {
+				order = append(order, batch)
+			}
+			byBatch[batch] = append(byBatch[batch], site{call})
+		})
+		for k, batch := range order {
+			sites := byBatch[batch]
+			key := fmt.Sprintf("%s returns the step vectors of batch #%d at one place", core.FuncName(fn), k+1)
+			bad := ""
+			for i := 0; i < len(sites); i++ {
+				for j := 0; j < len(sites); j++ {
+					if i == j {
+						continue
+					}
+					a, b := sites[i].call, sites[j].call
+					if a.Block() != b.Block() && core.Reaches(a.Block(), b.Block()) && !sameLoopIteration(fn, a.Block(), b.Block()) {
+						bad = p.Pos(a.Pos()) + " and " + p.Pos(b.Pos())
+					}
+				}
+			}
+			if bad != "" {
+				obs = append(obs, core.Ob(rule, key, p.Pos(sites[0].call.Pos()), core.FuncName(fn), core.Violated, "elements of the same batch are put back at "+bad+", one after the other: a vector that both sites reach is in the pool twice"))
+			} else {
+				obs = append(obs, core.Ob(rule, key, p.Pos(sites[0].call.Pos()), core.FuncName(fn), core.Held, "one put site (or mutually exclusive ones within an iteration)"))
+			}
+		}
+	}
+	return obs
+}
+
+// sameLoopIteration: a and b are in the same innermost loop body (alternatives within one iteration: an
+// element is put on one branch or the other, not on both).
+func sameLoopIteration(fn *ssa.Function, a, b *ssa.BasicBlock) bool {
+	la, lb := core.InnermostLoop(fn, a), core.InnermostLoop(fn, b)
+	if la == nil || lb == nil || len(la) != len(lb) {
+		return false
+	}
+	for x := range la {
+		if !lb[x] {
+			return false
+		}
+	}
+	// both in the same loop: exclusive if neither dominates the other
+	return !core.BlockDominates(a, b) && !core.BlockDominates(b, a)
+}
+
+// firstPos returns the position of the first instruction of b that has one.
+func firstPos(p *core.Program, b *ssa.BasicBlock) string {
+	for _, ins := range b.Instrs {
+		if ins.Pos().IsValid() {
+			return p.Pos(ins.Pos())
+		}
+	}
+	for _, s := range b.Succs {
+		for _, ins := range s.Instrs {
+			if ins.Pos().IsValid() {
+				return p.Pos(ins.Pos())
+			}
+		}
+	}
+	return "-"
+}
+
+// ---------------------------------------------------------------------------------------------
+
+func init() {
+	register(&Rule{ID: "R-VALUESWITCH", Min: 1, Run: ruleValueSwitch,
+		Doc: "a type switch over the result value of a query (parser.Value) that turns it into series covers every series-carrying value type of the pinned promql package (the implementers of parser.Value whose elements carry a Metric: Matrix and Vector), or has a default arm: a remote engine that answers an instant sub-query through the Prometheus fallback returns a Vector, and an uncovered type is dropped silently"})
+	register(&Rule{ID: "R-STALEGUARD", Min: 1, Run: ruleStaleGuard,
+		Doc: "an index counted from the end of a slice (s[len(s)-c]) is guarded by a length test of the value it indexes, not of an earlier version of the variable: when the slice is reassigned between the test and the index (buckets = coalesceBuckets(buckets)) the test says nothing about the new value and the index can run off the front"})
+
+	mutant(Mutant{Rule: "R-VALUESWITCH", Name: "vector-result-not-converted", File: "execution/remote/operator.go",
+		Old: "\tcase promql.Vector:\n\t\ts.series = make([]engstore.SignedSeries, len(val))\n\t\tfor i, point := range val {", New: "\tcase promql.Scalar:\n\t\ts.series = nil\n\tcase *promql.Vector:\n\t\ts.series = make([]engstore.SignedSeries, len(*val))\n\t\tfor i, point := range *val {", Expect: "executeQuery"})
+	mutant(Mutant{Rule: "R-STALEGUARD", Name: "bucket-count-tested-before-coalescing", File: "execution/function/quantile.go",
+		Old: "\tsort.Sort(buckets)\n", New: "\tif len(buckets) < 2 {\n\t\treturn math.NaN()\n\t}\n\tsort.Sort(buckets)\n", Old2: "\tbuckets = coalesceBuckets(buckets)\n\tensureMonotonic(buckets)\n\n\tif len(buckets) < 2 {\n\t\treturn math.NaN()\n\t}\n", New2: "\tbuckets = coalesceBuckets(buckets)\n\tensureMonotonic(buckets)\n", Expect: "bucketQuantile"})
+}
+
+func ruleValueSwitch(p *core.Program) []core.Obligation {
+	const rule = "R-VALUESWITCH"
+	var obs []core.Obligation
+	prs, prq := p.Deps[pkgParser], p.Deps[pkgPromqlRef]
+	if prs == nil || prq == nil {
+		return []core.Obligation{core.Ob(rule, "parser.Value switches", "-", "", core.Lost, "packages not loaded")}
+	}
+	vo := prs.Types.Scope().Lookup("Value")
+	if vo == nil {
+		return []core.Obligation{core.Ob(rule, "parser.Value switches", "-", "", core.Lost, "parser.Value not found")}
+	}
+	iface, _ := vo.Type().Underlying().(*types.Interface)
+	// series-carrying implementers: slice types whose element struct has a field Metric
+	need := map[string]bool{}
+	for _, n := range prq.Types.Scope().Names() {
+		tn, ok := prq.Types.Scope().Lookup(n).(*types.TypeName)
+		if !ok || iface == nil || !types.Implements(tn.Type(), iface) {
+			continue
+		}
+		sl, ok := tn.Type().Underlying().(*types.Slice)
+		if !ok {
+			continue
+		}
+		st, ok := sl.Elem().Underlying().(*types.Struct)
+		if !ok {
+			continue
+		}
+		for i := 0; i < st.NumFields(); i++ {
+			if st.Field(i).Name() == "Metric" {
+				need[tn.Name()] = true
+			}
+		}
+	}
+	if len(need) < 2 {
+		return []core.Obligation{core.Ob(rule, "parser.Value switches", "-", "", core.Lost, "series-carrying value types not found in the pinned promql package")}
+	}
+	for _, pk := range p.Pkgs {
+		for _, f := range pk.Syntax {
+			ast.Inspect(f, func(n ast.Node) bool {
+				ts, ok := n.(*ast.TypeSwitchStmt)
+				if !ok {
+					return true
+				}
+				var subject ast.Expr
+				switch a := ts.Assign.(type) {
+				case *ast.AssignStmt:
+					if ta, ok := a.Rhs[0].(*ast.TypeAssertExpr); ok {
+						subject = ta.X
+					}
+				case *ast.ExprStmt:
+					if ta, ok := a.X.(*ast.TypeAssertExpr); ok {
+						subject = ta.X
+					}
+				}
+				if subject == nil || !types.Identical(pk.TypesInfo.TypeOf(subject), vo.Type()) {
+					return true
+				}
+				covered := map[string]bool{}
+				hasDefault := false
+				for _, c := range ts.Body.List {
+					cc := c.(*ast.CaseClause)
+					if cc.List == nil {
+						hasDefault = true
+					}
+					for _, e := range cc.List {
+						if t := pk.TypesInfo.TypeOf(e); t != nil {
+							if nt, ok := t.(*types.Named); ok {
+								covered[nt.Obj().Name()] = true
+							}
+						}
+					}
+				}
+				fnName := "?"
+				for _, d := range f.Decls {
+					if fd, ok := d.(*ast.FuncDecl); ok && fd.Pos() <= ts.Pos() && ts.End() <= fd.End() {
+						fnName = fd.Name.Name
+					}
+				}
+				key := fmt.Sprintf("%s.%s switches over the type of a query result", core.Rel(pk.PkgPath), fnName)
+				var missing []string
+				for t := range need {
+					if !covered[t] {
+						missing = append(missing, t)
+					}
+				}
+				sortStrings(missing)
+				if len(missing) > 0 && !hasDefault {
+					obs = append(obs, core.Ob(rule, key, p.Pos(ts.Pos()), fnName, core.Violated, fmt.Sprintf("no arm for promql.%s and no default: a result of that type is dropped silently and the query succeeds without its series", strings.Join(missing, ", promql."))))
 				} else {
-					obs = append(obs, core.Ob(rule, key, p.Pos(call.Pos()), core.FuncName(caller), core.Violated, "a label name that is not the metric name is handed to a helper that deletes every matcher with that name: a second matcher on the same label is deleted along with the one that was compared"))
+					obs = append(obs, core.Ob(rule, key, p.Pos(ts.Pos()), fnName, core.Held, "covers every series-carrying value type (or has a default)"))
 				}
+				return true
 			})
 		}
 	}
 	return obs
+}
+
+func ruleStaleGuard(p *core.Program) []core.Obligation {
+	const rule = "R-STALEGUARD"
+	var obs []core.Obligation
+	for _, fn := range p.Funcs {
+		if !hasPrefixRel(fn, "execution") {
+			continue
+		}
+		k := 0
+		core.EachInstr(fn, func(b *ssa.BasicBlock, i int, ins ssa.Instruction) {
+			ia, ok := ins.(*ssa.IndexAddr)
+			if !ok {
+				return
+			}
+			// index = len(X) - c
+			bo, ok := ia.Index.(*ssa.BinOp)
+			if !ok || bo.Op != token.SUB {
+				return
+			}
+			c, ok := core.ConstInt(bo.Y)
+			if !ok || c < 1 {
+				return
+			}
+			lc, ok := bo.X.(*ssa.Call)
+			if !ok {
+				return
+			}
+			bi, ok := lc.Call.Value.(*ssa.Builtin)
+			if !ok || bi.Name() != "len" || !core.SameExpr(lc.Call.Args[0], ia.X) {
+				return
+			}
+			// the slice lives in a variable (captured by a closure): versions are separated by the stores to it
+			if a, ok := core.Deref(ia.X).(*ssa.Alloc); ok {
+				var stores []*ssa.Store
+				for _, r := range core.Referrers(a) {
+					if st, ok := r.(*ssa.Store); ok && st.Addr == a {
+						stores = append(stores, st)
+					}
+				}
+				if len(stores) < 2 {
+					return
+				}
+				k++
+				key := fmt.Sprintf("%s indexes a reassigned slice from its end #%d", core.FuncName(fn), k)
+				fresh, stale := false, false
+				for _, gb := range fn.Blocks {
+					iff := core.IfOf(gb)
+					if iff == nil {
+						continue
+					}
+					bo2, ok := iff.Cond.(*ssa.BinOp)
+					if !ok {
+						continue
+					}
+					lc2, ok := bo2.X.(*ssa.Call)
+					if !ok {
+						continue
+					}
+					bi2, ok := lc2.Call.Value.(*ssa.Builtin)
+					if !ok || bi2.Name() != "len" || core.Deref(lc2.Call.Args[0]) != ssa.Value(a) {
+						continue
+					}
+					if !lenAtLeast(fn, lc2.Call.Args[0], c, ia) {
+						continue
+					}
+					// a store between the guard and the use makes the guard stale
+					between := false
+					for _, st := range stores {
+						if core.InstrDominates(iff, st) && core.InstrDominates(st, ia) {
+							between = true
+						}
+					}
+					if between {
+						stale = true
+					} else {
+						fresh = true
+					}
+				}
+				switch {
+				case fresh:
+					obs = append(obs, core.Ob(rule, key, p.Pos(ia.Pos()), core.FuncName(fn), core.Held, "a length test made after the last reassignment guards the index"))
+				case stale:
+					obs = append(obs, core.Ob(rule, key, p.Pos(ia.Pos()), core.FuncName(fn), core.Violated, "the only length test that guards this index was made before the slice was reassigned: the new value can be shorter and len(s)-"+fmt.Sprint(c)+" negative"))
+				default:
+					obs = append(obs, core.Ob(rule, key, p.Pos(ia.Pos()), core.FuncName(fn), core.Held, "no stale guard (the length is not tested in this function)"))
+				}
+				return
+			}
+			// earlier versions of the slice: X = f(X0) (a repo call that takes the old value)
+			var earlier []ssa.Value
+			for v := range core.PhiClosure(ia.X) {
+				if call, ok := v.(*ssa.Call); ok {
+					for _, a := range call.Call.Args {
+						if types.Identical(a.Type(), ia.X.Type()) {
+							earlier = append(earlier, a)
+						}
+					}
+				}
+			}
+			if len(earlier) == 0 {
+				return
+			}
+			k++
+			key := fmt.Sprintf("%s indexes a reassigned slice from its end #%d", core.FuncName(fn), k)
+			guardedNow := lenAtLeast(fn, ia.X, c, ia)
+			guardedBefore := false
+			for _, e := range earlier {
+				if lenAtLeast(fn, e, c, ia) {
+					guardedBefore = true
+				}
+			}
+			switch {
+			case guardedNow:
+				obs = append(obs, core.Ob(rule, key, p.Pos(ia.Pos()), core.FuncName(fn), core.Held, "the length test is on the value that is indexed"))
+			case guardedBefore:
+				obs = append(obs, core.Ob(rule, key, p.Pos(ia.Pos()), core.FuncName(fn), core.Violated, "the only length test that guards this index was made on the slice before it was reassigned: the new value can be shorter and len(s)-"+fmt.Sprint(c)+" negative"))
+			default:
+				// no guard in this function at all: the caller's contract, not this rule's subject
+				obs = append(obs, core.Ob(rule, key, p.Pos(ia.Pos()), core.FuncName(fn), core.Held, "no stale guard (the length is not tested in this function)"))
+			}
+		})
+	}
+	return obs
+}
+
+// lenAtLeast: use lies on a branch on which len(s) >= n was established by a test of that very value.
+func lenAtLeast(fn *ssa.Function, s ssa.Value, n int64, use ssa.Instruction) bool {
+	for _, b := range fn.Blocks {
+		iff := core.IfOf(b)
+		if iff == nil {
+			continue
+		}
+		bo, ok := iff.Cond.(*ssa.BinOp)
+		if !ok {
+			continue
+		}
+		lc, ok := bo.X.(*ssa.Call)
+		if !ok {
+			continue
+		}
+		bi, ok := lc.Call.Value.(*ssa.Builtin)
+		if !ok || bi.Name() != "len" || !(lc.Call.Args[0] == s || core.SameExpr(lc.Call.Args[0], s)) {
+			continue
+		}
+		c, ok := core.ConstInt(bo.Y)
+		if !ok {
+			continue
+		}
+		succ := -1
+		switch bo.Op {
+		case token.LSS: // len < c: else branch has len >= c
+			if c >= n {
+				succ = 1
+			}
+		case token.LEQ:
+			if c+1 >= n {
+				succ = 1
+			}
+		case token.GEQ:
+			if c >= n {
+				succ = 0
+			}
+		case token.GTR:
+			if c+1 >= n {
+				succ = 0
+			}
+		}
+		if succ >= 0 && core.BranchDominates(b, succ, use.Block()) {
+			return true
+		}
+	}
+	return false
 }
